@@ -6,6 +6,7 @@ import (
 
 	"github.com/consensys/gnark/constraint/solver"
 	"github.com/consensys/gnark/frontend"
+	"github.com/consensys/gnark/std/gkr"
 	"github.com/consensys/gnark/std/hash/mimc"
 	"github.com/consensys/gnark/std/lookup/logderivlookup"
 	"github.com/consensys/gnark/std/math/bits"
@@ -34,6 +35,7 @@ type CorpusInfo struct {
 	SCSOnly  bool
 	R1CSOnly bool
 	Small    bool // compiles over the small fields (no curve-specific hash / commitment needed)
+	Gkr      bool // delegates a computation to GKR: needs the hash GkrHashName registered for the curve (only some commands do)
 	Many     bool // cheap circuit whose compilation involves a cost tie: compiled many more times by the determinism recorder
 }
 
@@ -57,7 +59,11 @@ var CorpusList = []CorpusInfo{
 	{Name: "rangetie4", NbPub: 1, NbSec: 4, Commits: true, Many: true},
 	{Name: "hintdyn", Small: true, NbPub: 2, NbSec: 1},
 	{Name: "hintlazy", Small: true, NbPub: 1, NbSec: 1},
+	{Name: "gkr", NbPub: 1, NbSec: 4, Commits: true, Gkr: true},
 }
+
+// GkrHashName is the Fiat-Shamir hash the "gkr" corpus circuit asks for; the curve packages register it (c19Register).
+const GkrHashName = "verif-mimc"
 
 func CorpusByName(name string) CorpusInfo {
 	for _, c := range CorpusList {
@@ -176,6 +182,8 @@ func AssignCorpusN(kind string, variant int, mod *big.Int, n int) *Corpus {
 	case "mimc":
 		c.P[0] = 0 // filled by caller through the test engine? no: constrain P0 = S0+S1, digest only asserted non-zero
 		c.P[0] = add(s[0], s[1])
+	case "gkr":
+		c.P[0] = add(mul(s[0], s[2]), mul(s[1], s[3]))
 	case "logs":
 		c.P[0] = mul(s[0], s[1])
 	case "wide":
@@ -331,6 +339,25 @@ func (c *Corpus) Define(api frontend.API) error {
 		d := h.Sum()
 		api.AssertIsDifferent(d, 0)
 		api.AssertIsEqual(api.Add(S[0], S[1]), P[0])
+	case "gkr":
+		// two instances of x*y delegated to GKR; the sum of the exported products is public
+		g := gkr.NewApi()
+		x, err := g.Import([]frontend.Variable{S[0], S[1]})
+		if err != nil {
+			return err
+		}
+		y, err := g.Import([]frontend.Variable{S[2], S[3]})
+		if err != nil {
+			return err
+		}
+		z := g.Mul(x, y)
+		sol, err := g.Solve(api)
+		if err != nil {
+			return err
+		}
+		vals := sol.Export(z)
+		api.AssertIsEqual(api.Add(vals[0], vals[1]), P[0])
+		return sol.Verify(GkrHashName)
 	case "logs":
 		m := api.Mul(S[0], S[1])
 		api.Println("product", m, "of", S[0], S[1])
